@@ -334,6 +334,7 @@ def main():
         sys.exit(3)
     tier, seed = a.tier, int(a.seed)
     if a.replay:
+        a.replay = os.path.abspath(a.replay)
         rp = json.load(open(a.replay))
         tier, seed = rp.get("tier", tier), rp.get("seed", seed)
     if tier not in ("quick", "thorough"):
